@@ -5,6 +5,12 @@ sys.path.insert(0, '/verif')
 from harness import common, engine
 common.prime()
 DESCR = {
+ "C05-intermediate-description-leaves-next-kinds-domain": "conversions compose badly: the normalisation of one kind produces a description the next kind does not carry faithfully (e.g. function/method write None for a missing default, argparse then reads the parameter as Optional[...]; argparse/class write '' or 0, the next docstring then says 'Defaults to' with nothing after it)",
+ "C01-D7-default-invented-after-defaulted": "numpydoc/google invent a default for every entry after a defaulted one (and for the return entry); later kinds on the chain then fail or raise",
+ "C01-D8-google-return-type-as-prose": "google reads the return type back as prose",
+ "C04-return-entry": "a return entry is dropped or altered by argparse on the chain",
+ "C03-return-default": "a return entry with a default expression is not preserved by function/method on the chain",
+ "C08-google-drift": "google output keeps changing between the second and third emission (return type read back as prose, D8)",
  "AST-untyped-entry": "an entry without a type does not survive: the emitters invent a type from the default (or `object`), drop the annotation, or the parser raises",
  "AST-entry-without-prose": "an entry without prose loses its default/type on the way through the docstring part of the artefact (function emitter raises AttributeError on a prose-less return entry)",
  "AST-code-default": "a back-tick quoted code default loses its quoting / is cut at '.' / changes the declared type / makes the parser raise (root: extract_default strips back-ticks, see C17-code-default-unquoted)",
